@@ -116,8 +116,10 @@ func WConfig(prop, tier string) *Config {
 		cfg.Oracles = []*Oracle{OracleC13()}
 		if thorough {
 			cfg.Phases = []Phase{{Name: "full-depth3", Roots: roots01, Ops: ops, Depth: 3, Dev: 3}}
+			cfg.NodeHook = C13Drain(2) // drain in all 24 claim orders below every node of depth <= 2
 		} else {
 			cfg.Phases = []Phase{{Name: "full-depth2", Roots: roots01, Ops: ops, Depth: 2, Dev: 2}}
+			cfg.NodeHook = C13Drain(1)
 		}
 	case "C15":
 		ops := []string{"swap_in_p1_usdc_atom_L", "swap_out_p2_elys_usdc_L", "swap_fail_minout_p1", "join_p1_all_t1", "join_p2_all_t1", "exit_p1_10pct_lp1", "exit_p2_half_lp1", "exit_p2_all_t1", "create_pool_lp1",
